@@ -64,6 +64,13 @@ pub fn err_kind(e: &InterpreterError) -> &'static str {
         InterpreterError::RedimensionedArray => "REDIM'D ARRAY",
         InterpreterError::CannotContinue => "CAN'T CONTINUE",
         InterpreterError::IllegalDirect => "ILLEGAL DIRECT",
+        // an error kind this harness does not know (a change to the repository may add one): still a value, not a build failure
+        #[allow(unreachable_patterns)]
+        InterpreterError::Syntax(_) => "SYNTAX/OTHER",
+        #[allow(unreachable_patterns)]
+        InterpreterError::OutOfMemory(_) => "OUT OF MEMORY/OTHER",
+        #[allow(unreachable_patterns)]
+        _ => "OTHER ERROR KIND",
     }
 }
 
